@@ -42,6 +42,9 @@ func (x *Exec) symParam(name string, t types.Type, nonNil bool) Val {
 	c := x.sc.declConst("p_"+sanitize(name), x.so.sortOf(t))
 	v := Val{T: t, S: c}
 	x.assumeRange(v)
+	if _, ok := types.Unalias(t).(*types.TypeParam); ok {
+		return v // a value of a type parameter is opaque
+	}
 	switch u := under(t).(type) {
 	case *types.Pointer, *types.Map, *types.Chan:
 		_ = u
@@ -231,6 +234,11 @@ func (e *Engine) verifyFunc(key string, against *FuncContract, prefix string) (r
 	x.curPos = fn.Pos()
 	if !fc.Flags["noframe"] {
 		x.frameCheck(fc, env, st, reach)
+	}
+	for _, en := range fc.Ensures {
+		if strings.HasPrefix(en.Label, "ghost") {
+			x.sc.note("bookkeeping clause (ghost counter, a definition): NOT checked, assumed by callers: ensures %s", strings.Join(strings.Fields(en.Text), " "))
+		}
 	}
 	if len(x.only) > 0 {
 		// thin unit: clauses of this function outside its clause families are not proved here, yet callers assume them
